@@ -24,6 +24,10 @@ ML_SLOTS = [
     ("block1", "if true { reject %s\n; }"),
     ("block2", "if true { if true { vacation :subject \"s\" %s\n; } else { keep; } }"),
     ("tag-param", 'vacation :subject %s\n"r";'),
+    # a multi-line literal as a member of a bracketed list: outside RFC 5228's string-list grammar as implemented; if a tree accepts it,
+    # it must round-trip like everything else it accepts
+    ("list-member", 'if header ["a", %s\n] "k" { keep; }'),
+    ("list-only-member", 'keep :flags [%s\n];'),
 ]
 
 
